@@ -37,7 +37,7 @@ DELIMS = {
     "query_item": "&=#",
     "fragment": "",
 }
-RAW_EXTRA = [":", "@", "/", "?", "#", "&", "=", ";"]
+RAW_EXTRA = [":", "@", "/", "?", "#", "&", "=", ";", "\n", "\t", "\r", "\x00", "\x7f", "\x85", "\u2028"]
 
 
 def _is_control(c):
@@ -171,7 +171,7 @@ EVALUATORS = {"quote": eval_quote}
 
 REDUCED = ["a", "7", "~", "%41", "%7e", "%2E", "é", "%C3%A9", "%c3%a9", " ", "%20", "%2F", "%3F", "%23", "%26",
            "%3D", "%40", "%3A", "%25", "%2B", "%2541", "%", "%4", "%zz", "%٣٤", "%E9", "%C3", "%C2%80", "%00", "%0A",
-           "%7F", "+", "/", "?", "#", "&", "=", ":", "@", "1", "F"]
+           "%7F", "+", "/", "?", "#", "&", "=", ":", "@", "1", "F", "\n", "%E2%82"]
 FULL = sorted({t for _, t in FLAT} | set(RAW_EXTRA))
 
 
